@@ -248,6 +248,16 @@ class ElementTraits<std::index_sequence<I...>, Parameter...>
         return emplace_at<false>(address, fixed_sizes, std::forward<Args>(args)...);
     }
 
+    // Moves an element to `address`, which is not behind the element and may overlap it: object by object, front to
+    // back, so that an object is only ever constructed on storage that it or an already moved object has left.
+    static std::byte* relocate_at(std::byte* address, const ContiguousReference& source)
+    {
+        ((address = detail::ParameterTraits<Parameter>::template relocate<previous_trailing_alignment<I>()>(
+              cntgs::get<I>(source), address)),
+         ...);
+        return address;
+    }
+
     template <class SizeGetterType = ElementTraits::SizeGetter, class FixedSizesType = ElementTraits::FixedSizesArray>
     static ContiguousPointer load_element_at(std::byte* CNTGS_RESTRICT address,
                                              const FixedSizesType& CNTGS_RESTRICT fixed_sizes) noexcept
